@@ -264,7 +264,7 @@ def record_trace(args):
 
 # ------------------------------------------------------------------ query mutations
 RELAY = {'none': '', 'amp': 'relay &Signature=x', 'space': 'two words', 'tilde': 'a~b', 'unreserved': 'a-b._c',
-         'unicode': u'r\u00e9 \u4e2d'}
+         'unicode': u'r\u00e9 \u4e2d', 'pctliteral': '50%25 off %2Bx %7E 100% %zz'}
 
 
 def query_case(case):
